@@ -1,0 +1,30 @@
+/*  verif.h -- optional verification call-outs (compiled only with -DCHIBI_VERIF=1) */
+/*  All members are NULL unless an embedding harness installs them;           */
+/*  with CHIBI_VERIF undefined or 0 nothing in this file is compiled.         */
+
+#ifndef SEXP_VERIF_H
+#define SEXP_VERIF_H
+
+#if CHIBI_VERIF
+
+struct sexp_verif_hooks {
+  /* gc.c */
+  int  (*want_gc) (sexp ctx, size_t size);          /* non-zero: collect before this allocation */
+  void (*before_carve) (sexp ctx, void *chunk, size_t chunk_size, size_t size);
+  void (*after_alloc) (sexp ctx, void *res, size_t requested, size_t aligned);
+  void (*before_gc) (sexp ctx);
+  void (*after_gc) (sexp ctx);
+  void (*on_make_heap) (sexp_heap h);
+  void (*on_free_heap) (sexp_heap h);
+  /* vm.c: called before each instruction while more than one unit of fuel is left; */
+  /* returns the fuel to continue with (1 = end the time slice before this instruction) */
+  sexp_sint_t (*on_instr) (sexp ctx, unsigned char *ip, sexp_sint_t fuel);
+  /* sexp.c/eval.c: points that touch process-wide state */
+  void (*sched_point) (int id, void *arg);
+};
+
+SEXP_API struct sexp_verif_hooks sexp_verif;
+
+#endif  /* CHIBI_VERIF */
+
+#endif  /* ! SEXP_VERIF_H */
